@@ -355,8 +355,10 @@ static void run_col(char mode, int verify, int rg, int col, char* ops) {
             int with_def = (op == 'r');
             /* exact-size heap buffers: writing past max_values entries is an ASan report */
             size_t nb = (size_t)(k > 0 ? k : 0) * ci.vsize;
-            uint8_t* vals = malloc(nb ? nb : 1);
-            memset(vals, 0xA5, nb ? nb : 1);
+            /* huge requests (>= 256 MiB of slots): untouched zero pages instead of a pattern fill */
+            uint8_t* vals = nb > ((size_t)1 << 28) ? calloc(nb, 1) : malloc(nb ? nb : 1);
+            if (!vals) { printf(" !alloc"); break; }
+            if (nb <= ((size_t)1 << 28)) memset(vals, 0xA5, nb ? nb : 1);
             int16_t* defs = with_def ? malloc(sizeof(int16_t) * (size_t)(k > 0 ? k : 1)) : NULL;
             if (defs) for (long long i = 0; i < (k > 0 ? k : 1); i++) defs[i] = 0x5A5A;
             int64_t ret = carquet_column_read_batch(cr, vals, k, defs, NULL);
